@@ -46,3 +46,6 @@ Definition ebal (p : prepared) (i : hin) : Q :=
 Definition sources_ok (src_rated : list Q) (net scale : Q) (obs_sources : list fl) : bool :=
   let cap := qsum src_rated in
   all2 (fun r o => close_num scale o (Fin (if qzero net then 0 else r * (net / cap)))) src_rated obs_sources.
+(* the same with an explicit capacity (a PTI/PTO that shares the load with the sources at this step counts in it) *)
+Definition sources_ok_cap (src_rated : list Q) (cap net scale : Q) (obs_sources : list fl) : bool :=
+  all2 (fun r o => close_num scale o (Fin (if qzero net then 0 else r * (net / cap)))) src_rated obs_sources.
